@@ -507,3 +507,25 @@ def collect_of(block, var):
         elif st[0] not in ("set", "ret") and contains(st, var):
             return None
     return out
+
+
+def dict_loops(block, d=None, top_only: bool = False):
+    """the loops over the entries of a mapping: [(loop, key, value)] -- ``for k in d`` (value ``d[k]``; this is also the
+    normal form of ``for k, v in d.items()`` when the loop leaves d alone) and the unconverted ``for k, v in d.items()``.
+    With ``d`` None every mapping qualifies and the entry has a 4th item, the mapping."""
+    from framelint.canon import atoms_of
+    lps = [st for st in block if isinstance(st, tuple) and st[:1] == ("for",) and len(st) == 5] if top_only else \
+        atoms_of(block, lambda x: x[0] == "for" and len(x) == 5)
+    out = []
+    for lp in lps:
+        var, it = lp[1], lp[2]
+        if isinstance(it, tuple) and it[:1] == ("c",) and isinstance(it[1], tuple) and it[1][:1] == ("a",) and it[1][2] == "items" and not it[2] \
+                and isinstance(var, tuple) and var[:1] == ("tuple",) and len(var[1]) == 2:
+            if d is None or it[1][1] == d:
+                out.append((lp, var[1][0], var[1][1]) + ((it[1][1],) if d is None else ()))
+        elif isinstance(var, tuple) and var[:1] == ("v",):
+            if d is not None and it == d:
+                out.append((lp, var, ("s", d, var)))
+            elif d is None and contains(lp[3], ("s", it, var)):
+                out.append((lp, var, ("s", it, var), it))
+    return out
